@@ -48,9 +48,9 @@ PwlFnClauses(e) ==
      \cup (IF \E n \in 1..np : ~(RLeq(RSub(c.omin, tol), out(n)) /\ RLeq(out(n), RAdd(c.omax, tol))) THEN {"OutputsBounded"} ELSE {})
      \cup (IF c.mono = "increasing" /\ \E n, m \in 1..np : ~isMiss(n) /\ ~isMiss(m) /\ e.xs[n] < e.xs[m] /\ e.outs[n] > e.outs[m] + 2 * e.tolu
            THEN {"Monotone"} ELSE {})
-     \cup (IF c.clampMin /\ \E n \in 1..np : xv(n) = c.imin /\ ~RNear(out(n), c.omin, RMul(tol, R(4))) THEN {"ClampMinReached"} ELSE {})
-     \cup (IF c.clampMax /\ \E n \in 1..np : xv(n) = c.imax /\ ~RNear(out(n), c.omax, RMul(tol, R(4))) THEN {"ClampMaxReached"} ELSE {})
-     \cup (IF c.cyclic /\ \E n, m \in 1..np : xv(n) = c.imin /\ xv(m) = c.imax /\ ~RNear(out(n), out(m), RMul(tol, R(4))) THEN {"CyclicEndsEqual"} ELSE {})
+     \cup (IF c.clampMin /\ \E n \in 1..np : ~isMiss(n) /\ xv(n) = c.imin /\ ~RNear(out(n), c.omin, RMul(tol, R(4))) THEN {"ClampMinReached"} ELSE {})
+     \cup (IF c.clampMax /\ \E n \in 1..np : ~isMiss(n) /\ xv(n) = c.imax /\ ~RNear(out(n), c.omax, RMul(tol, R(4))) THEN {"ClampMaxReached"} ELSE {})
+     \cup (IF c.cyclic /\ \E n, m \in 1..np : ~isMiss(n) /\ ~isMiss(m) /\ xv(n) = c.imin /\ xv(m) = c.imax /\ ~RNear(out(n), out(m), RMul(tol, R(4))) THEN {"CyclicEndsEqual"} ELSE {})
      \cup (IF c.hasMissOut /\ \E n \in 1..np : isMiss(n) /\ ~(e.outs[n] - e.missOut <= e.tolu /\ e.missOut - e.outs[n] <= e.tolu)
            THEN {"MissingMapsToMissingOutput"} ELSE {})
      \* C14: the PWLCalibration layer holding the derived parameters computes the same outputs
